@@ -5,8 +5,8 @@ HOOK_COMMITS = ["1ba4448", "b817b93"]
 ENGINES = [
     {"name": "m_text", "path": "harness/vtext/src/bin/m_text.rs", "serves_properties": ["C13", "C14", "C19"],
      "kind_free_text": "runtime monitor (in-process, needs hook feature `verif`): drives glas::vfs::Vfs/LineMap and glas::convert against a reference model of an LSP client document (vh::lspmodel) and an LSP semantic-token decoder; exhaustive small-document spaces plus seeded long documents"},
-    {"name": "m_lsp", "path": "harness/vh/src/bin/m_lsp.rs", "serves_properties": ["C13", "C15", "C16", "C17"],
-     "kind_free_text": "runtime monitor (black box): drives the real release binary `glas --stdio` with generated LSP message sequences (vh::lspclient), observes liveness, exactly-once responses and the server's document text through glas/syntaxTree, judged against a nondeterministic model of acceptable document states"},
+    {"name": "m_lsp", "path": "harness/vh/src/bin/m_lsp.rs", "serves_properties": ["C13", "C14", "C15", "C16", "C17", "C19"],
+     "kind_free_text": "runtime monitor (black box): drives the real release binary `glas --stdio` with generated LSP message sequences (vh::lspclient), observes liveness, exactly-once responses and the server's document text through glas/syntaxTree, judged against a nondeterministic model of acceptable document states; for C14/C19 a client with its own capabilities (position encodings, token types) decodes what the server sends by the encoding and legend the server announced and compares with the in-process analysis"},
     {"name": "m_incr", "path": "harness/vh/src/bin/m_incr.rs", "serves_properties": ["C11"],
      "kind_free_text": "runtime monitor: edit histories over a model workspace with stable FileIds; after every step the long-lived AnalysisHost, a fresh host and a fresh host queried in shuffled order must give equal normal forms; sampled states are re-analysed in a separate process"},
     {"name": "mi_syntax", "path": "harness/vh/src/bin/mi_syntax.rs", "serves_properties": ["C01", "C02"],
@@ -130,8 +130,8 @@ META = {
         "level_note": "Black-box documents use tokens shorter than 25 bytes (rowan's debug dump truncates longer tokens; the checked prefix length is counted). gleam.toml documents are not judged.",
     },
     "C14": {
-        "technique": "round-trip / monotonicity / model-agreement laws on LineMap and convert, exhaustive over small documents",
-        "level_text": "Exploration, exhaustive on documents of <=6 symbols over {ASCII, LF, 2-/3-/4-byte}: every boundary and every ordered pair; plus random documents up to 64 KiB. Held on everything observed.",
+        "technique": "round-trip / monotonicity / model-agreement laws on LineMap and convert, exhaustive over small documents; on the wire: a client model using the position encoding the real server announced vs. the in-process analysis",
+        "level_text": "Exploration, exhaustive on documents of <=6 symbols over {ASCII, LF, 2-/3-/4-byte}: every boundary and every ordered pair; plus random documents up to 64 KiB; plus ~10^4 sessions per quick run of the real binary with clients of differing capabilities (positions sent and ranges read back in the announced encoding). Held on everything observed.",
         "design_ref": "DESIGN.md §5 C14",
         "level_note": "The model (vh::lspmodel) is hand-written from the LSP specification; outgoing ranges of real handlers are additionally exercised end to end by C13/C15/C19.",
     },
@@ -143,7 +143,7 @@ META = {
         "level_note": "A deadlock verdict requires unanswered requests, an unanswered probe and flat CPU over 2 s; anything else that is slow is inconclusive. Valgrind memcheck subset: thorough tier.",
     },
     "C19": {
-        "technique": "LSP semantic-token decoder model: exhaustive encoder inputs over small documents; end-to-end highlight -> encode -> decode vs. generator ground truth",
+        "technique": "LSP semantic-token decoder model: exhaustive encoder inputs over small documents; end-to-end highlight -> encode -> decode vs. generator ground truth; on the wire: token streams of the real server decoded through the legend and encoding it announced to clients of differing capabilities",
         "level_text": ("Exploration: ~5x10^6 encoder cases (all disjoint word-range sets over all small documents with multi-byte characters) and ~10^4 generated programs per quick run. Found and repaired: module qualifiers never tagged `namespace`."),
         "design_ref": "DESIGN.md §5 C19",
         "level_note": "Function-typed locals are accepted with either tag in scoped mode; typed programs assert the `function` tag.",
